@@ -95,7 +95,83 @@ func Create(name string) (*File, error) {
 	return vf, nil
 }
 
+// Open and OpenFile hand out shim files too, so that code written against *os.File keeps compiling.
+func Open(name string) (*File, error) { return OpenFile(name, os.O_RDONLY, 0) }
+
+func OpenFile(name string, flag int, perm os.FileMode) (*File, error) {
+	kind := "open"
+	if flag&(os.O_WRONLY|os.O_RDWR|os.O_CREATE|os.O_TRUNC|os.O_APPEND) != 0 {
+		kind = "openfile"
+		if fail, _ := step(kind, name, 0); fail {
+			return nil, &os.PathError{Op: "open", Path: name, Err: ErrInjected}
+		}
+	}
+	f, err := os.OpenFile(name, flag, perm)
+	if err != nil {
+		return nil, err
+	}
+	vf := &File{f: f, name: name}
+	open[vf] = true
+	return vf, nil
+}
+
+func MkdirAll(name string, perm os.FileMode) error {
+	if fail, _ := step("mkdirall", name, 0); fail {
+		return &os.PathError{Op: "mkdir", Path: name, Err: ErrInjected}
+	}
+	return os.MkdirAll(name, perm)
+}
+
+func RemoveAll(name string) error {
+	if fail, _ := step("removeall", name, 0); fail {
+		return &os.PathError{Op: "remove", Path: name, Err: ErrInjected}
+	}
+	return os.RemoveAll(name)
+}
+
+func WriteFile(name string, data []byte, perm os.FileMode) error {
+	f, err := OpenFile(name, os.O_WRONLY|os.O_CREATE|os.O_TRUNC, perm)
+	if err != nil {
+		return err
+	}
+	_, err = f.Write(data)
+	if err1 := f.Close(); err1 != nil && err == nil {
+		err = err1
+	}
+	return err
+}
+
 func (f *File) Name() string { return f.name }
+
+// uncounted pass-through methods
+func (f *File) Stat() (os.FileInfo, error)              { return f.f.Stat() }
+func (f *File) Fd() uintptr                             { return f.f.Fd() }
+func (f *File) ReadAt(b []byte, off int64) (int, error) { return f.f.ReadAt(b, off) }
+func (f *File) Readdir(n int) ([]os.FileInfo, error)    { return f.f.Readdir(n) }
+func (f *File) Readdirnames(n int) ([]string, error)    { return f.f.Readdirnames(n) }
+func (f *File) ReadDir(n int) ([]os.DirEntry, error)    { return f.f.ReadDir(n) }
+func (f *File) Chmod(mode os.FileMode) error            { return f.f.Chmod(mode) }
+
+// counted mutating methods
+func (f *File) WriteString(s string) (int, error) { return f.Write([]byte(s)) }
+func (f *File) WriteAt(b []byte, off int64) (int, error) {
+	if fail, _ := step("writeat", f.name, len(b)); fail {
+		return 0, &os.PathError{Op: "write", Path: f.name, Err: ErrInjected}
+	}
+	return f.f.WriteAt(b, off)
+}
+func (f *File) Sync() error {
+	if fail, _ := step("sync", f.name, 0); fail {
+		return &os.PathError{Op: "sync", Path: f.name, Err: ErrInjected}
+	}
+	return f.f.Sync()
+}
+func (f *File) Truncate(size int64) error {
+	if fail, _ := step("truncate", f.name, 0); fail {
+		return &os.PathError{Op: "truncate", Path: f.name, Err: ErrInjected}
+	}
+	return f.f.Truncate(size)
+}
 
 func (f *File) Write(p []byte) (int, error) {
 	fail, torn := step("write", f.name, len(p))
